@@ -202,6 +202,7 @@ type sim struct {
 	txCount       [2]map[uint32]int // transmissions per TSN
 	ackedByPeer   [2]map[uint32]bool
 	probeOversize [2]bool
+	loss          [2]lossSnap
 	lastARwnd     [2]uint32 // last a_rwnd delivered TO side x (in a SACK), valid if haveARwnd
 	haveARwnd     [2]bool
 	peerInitRwnd  [2]uint32
@@ -318,6 +319,10 @@ func (s *sim) startHandshake(bothClients bool) {
 		select {
 		case err := <-a.handshakeCompletedCh:
 			s.hsErr[side] = err
+			if err != nil {
+				// mirrors ClientWithOptions / ServerWithOptions (fix: a failed handshake closes the association)
+				_ = a.Close()
+			}
 		case <-a.readLoopCloseCh:
 			s.hsErr[side] = ErrAssociationClosedBeforeConn
 		}
@@ -897,6 +902,44 @@ func (s *sim) checkBuffered(side int) {
 	}
 }
 
+// checkLossResponse: P_C10 "cwnd is cut on every loss signal" — a chunk newly marked as lost (retransmit flag set
+// on an original transmission) must come with a congestion response: T3 fired, fast recovery is/was entered, or
+// cwnd went down since the previous quiescent point.
+type lossSnap struct {
+	marked map[uint32]bool
+	cwnd   uint32
+	t3     uint64
+	infr   bool
+	valid  bool
+}
+
+func (s *sim) checkLossResponse() {
+	for side := 0; side < 2; side++ {
+		a := s.assoc[side]
+		if a == nil {
+			continue
+		}
+		a.lock.RLock()
+		cur := lossSnap{marked: map[uint32]bool{}, cwnd: a.CWND(), t3: a.stats.getNumT3Timeouts(), infr: a.inFastRecovery, valid: true}
+		newly := []uint32{}
+		for i := 0; i < a.inflightQueue.chunks.Len(); i++ {
+			c := a.inflightQueue.chunks.At(i)
+			if c.retransmit && !c.acked {
+				cur.marked[c.tsn] = true
+				if s.loss[side].valid && !s.loss[side].marked[c.tsn] && c.nSent == 1 {
+					newly = append(newly, c.tsn)
+				}
+			}
+		}
+		a.lock.RUnlock()
+		prev := s.loss[side]
+		if prev.valid && len(newly) > 0 && cur.t3 == prev.t3 && !cur.infr && !prev.infr && cur.cwnd >= prev.cwnd {
+			s.fail("C10", fmt.Sprintf("chunks marked lost without any congestion response (loss-marked-without-cwnd-cut): side=%d tsns=%v cwnd %d -> %d", side, newly, prev.cwnd, cur.cwnd))
+		}
+		s.loss[side] = cur
+	}
+}
+
 // checkNoStallInvariant: P_C02 at quiescent points — outstanding data always has a retransmission source
 // armed, and queued data is never left waiting with nothing in flight.
 func (s *sim) checkNoStallInvariant() {
@@ -1153,6 +1196,7 @@ func runTransferScenario(t *testing.T, seed int64, nEvents int, st *xferStats) [
 			}
 			st.events++
 			s.checkNoStallInvariant()
+			s.checkLossResponse()
 			if ev%7 == 0 {
 				s.checkBuffered(0)
 				s.checkBuffered(1)
